@@ -65,6 +65,33 @@ def gen_cases(ctx, rng):
         cases.append({"dir": "downstream", "chain": [L.tx("limit_data", name="d", bytes=N0)], "src": src, "ops": ops,
                       "horizon": 3600 * 1000 * L.MS, "seed": 5000 + i, "links": rng.choice([1, 1, 2])})
         stats["limit_updates"] = stats.get("limit_updates", 0) + 1
+    # reconfiguration of neighbouring toxics between chunks: the budget already used must carry over
+    nnb = 60 if ctx.tier == "quick" else 2000
+    for i in range(nnb):
+        N = rng.choice([1, 10, 50, 100, 1000])
+        nb = lambda nm: rng.choice([L.tx("noop", name=nm), L.tx("latency", name=nm, latency=0, jitter=0)])
+        pre = [nb("p%d" % j) for j in range(rng.range(0, 2))]
+        post = [nb("q%d" % j) for j in range(rng.range(0, 2))]
+        chain = pre + [L.tx("limit_data", name="d", bytes=N)] + post
+        src, ops, t, k = [], [], 5 * L.MS, 0
+        names = [x["name"] for x in pre + post]
+        for _ in range(rng.range(2, 7)):
+            src.append({"at": t, "n": rng.range(1, max(2, N // 2 + 3))})
+            t += 10 * L.MS
+            r = rng.below(4)
+            if r == 0:
+                k += 1
+                ops.append({"at": t - 5 * L.MS, "op": "add", "toxic": nb("a%d" % k)})
+                names.append("a%d" % k)
+            elif r == 1 and names:
+                nm = names.pop(rng.below(len(names)))
+                ops.append({"at": t - 5 * L.MS, "op": "remove", "name": nm})
+            elif r == 2 and names:
+                ops.append({"at": t - 5 * L.MS, "op": "update", "name": rng.choice(names), "body": '{"toxicity": 1}'})
+        src.append({"at": t + 5 * L.MS, "close": True})
+        cases.append({"dir": rng.choice(["upstream", "downstream"]), "chain": chain, "src": src, "ops": ops, "neighbours": True,
+                      "horizon": 3600 * 1000 * L.MS, "seed": 9000 + i, "links": rng.choice([1, 1, 2])})
+        stats["neighbour_reconfigurations"] = stats.get("neighbour_reconfigurations", 0) + 1
     return cases, stats
 
 
@@ -98,6 +125,13 @@ def oracle(case, res):
         return None
     N = ds[0]["attributes"]["bytes"]
     sent = sum(e.get("n", 0) for e in case["src"])
+    if case.get("neighbours"):
+        want = min(max(N, 0), sent)
+        if not res["prefix_ok"] or res["total"] != want:
+            return "with neighbouring toxics added/removed/updated between chunks: receiver got %d bytes, expected min(N, total) = %d (N = %d)" % (res["total"], want, N)
+        if sent >= N and res["closed"] < 0:
+            return "limit reached but the connection was not closed"
+        return None
     if case.get("ops"):
         if len(case["chain"]) != 1:
             return None
@@ -123,13 +157,14 @@ def run(ctx):
         ctx, PID, gen_cases, oracle,
         known_class=lambda c, r, w: "limit-wrap" if c.get("f11") and "with limit updates" in w else None,
         model_filter=lambda c: not c.get("ops"),
-        classify=lambda w: "limit-update" if "with limit updates" in w else "wrong-prefix" if ("expected exactly" in w or "prefix" in w) else ("close" if "closed" in w else "crash"),
+        classify=lambda w: "neighbour-reconfiguration" if "neighbouring" in w else "limit-update" if "with limit updates" in w else "wrong-prefix" if ("expected exactly" in w or "prefix" in w) else ("close" if "closed" in w else "crash"),
         rule="N over {min64,-1,0,1,2,99,100,101,32767,32768,32769,10^6} x payload lengths N-2..N+2 and random x chunkings (whole, "
-             "all-ones for short payloads, random compositions), limit_data behind/ahead of 0-2 preserving stages, 1-3 connections; "
+             "all-ones for short payloads, random compositions), limit_data behind/ahead of 0-2 preserving stages, 1-3 connections; plus updates of "
+             "the limit between chunks, and add/remove/update of neighbouring toxics (before and behind limit_data) between chunks; "
              "non-trivial = payload reaches the limit; distinct by JSON",
         nontrivial=lambda c: bool(c.get("ops")) or sum(e.get("n", 0) for e in c["src"]) >= max(1, ([t for t in c["chain"] if t["type"] == "limit_data"] or [{"attributes": {"bytes": 1 << 62}}])[0]["attributes"]["bytes"]),
-        assumptions=["updates of the limit and reconfiguration of neighbours between chunks are exercised by the C02/C04 runs; "
-                     "the restart rule is theorem C11_restart",
+        assumptions=["histories with updates or neighbour reconfiguration are judged by the oracle (the executable model replays static chains); "
+                     "the restart rule is theorem C11_restart and the regenerated fact state_created_only_for_new_stubs",
                      "known finding F11: the budget N - counter wraps for N near min64 after bytes were counted"])
 
 
